@@ -1,9 +1,10 @@
 use super::runner::{Codec, Property};
 
+pub mod c04;
 pub mod c06;
 pub mod c07;
 pub mod c08;
 
 pub fn all<C: Codec>() -> Vec<Property> {
-    vec![c06::property::<C>(), c07::property::<C>(), c08::property::<C>()]
+    vec![c04::property::<C>(), c06::property::<C>(), c07::property::<C>(), c08::property::<C>()]
 }
